@@ -91,8 +91,7 @@ Definition opt_name_eqb (a b : option name) : bool :=
   match a, b with
   | None, None => true
   | Some x, Some y => bytes_eqb x y
-  | Some x, None => match x with [] => true | _ => false end
-  | None, Some y => match y with [] => true | _ => false end
+  | _, _ => false     (* an alias that is defined is never empty in a parsed document *)
   end.
 
 (* ------------------------------------------------------------------ 1. @skip / @include *)
